@@ -722,7 +722,7 @@ Next:
         return make_error(Error::kInvalidExtraReg);
       }
 
-      if (ASMJIT_UNLIKELY(extra_reg.id() == 0 || !common_info.has_avx512_k())) {
+      if (ASMJIT_UNLIKELY(extra_reg.id() == 0 || extra_reg.id() > 7 || !common_info.has_avx512_k())) {
         return make_error(Error::kInvalidKMaskUse);
       }
     }
